@@ -27,6 +27,20 @@ def gen_c14(ctx, rng):
     if nonin and rng.random() < 0.3:
         members = rng.sample(nonin, rng.randint(1, min(3, len(nonin))))
         j['blocks'].append(['outer', [], members, [members[0]]])
+    special = [g[0] for g in j['gates'] if g[1] in gen.CMP + gen.LR + gen.CONST]
+    if special and rng.random() < 0.3:
+        # what two levels of named composition leave behind: a gate labelled `stage@cmp@<x>` that is a member of the
+        # block `stage@cmp` and of the enclosing block `stage`
+        old = rng.choice(special)
+        new = 'stage@cmp@' + old
+        f = lambda l: new if l == old else l
+        j['gates'] = [[f(g[0]), g[1], [f(o) for o in g[2]]] for g in j['gates']]
+        j['inputs'] = [f(x) for x in j['inputs']]
+        j['outputs'] = [f(x) for x in j['outputs']]
+        j['blocks'] = [[b[0], [f(x) for x in b[1]], [f(x) for x in b[2]], [f(x) for x in b[3]]] for b in j['blocks']]
+        others = [g[0] for g in j['gates'] if g[1] != 'INPUT' and g[0] != new]
+        j['blocks'].append(['stage@cmp', [], [new], [new]])
+        j['blocks'].append(['stage', [], [new] + (rng.sample(others, 1) if others else []), [new]])
     return realize(j), info
 
 
